@@ -43,7 +43,9 @@ _c('C05', 'Proved: a charge step derives one (kwh, price = kwh x tariff) and app
 _c('C07', 'Proved: every accepted enter() (instruction of any controller or default transition) has established the location facts (vehicle at station/base; route starts at vehicle and ends at '
           'target); trips start at the origin and end at the destination. Proved over ALL finite histories of step operations, any controller (C07_places_over_histories, macro frame theorem): '
           'every vehicle charging or queueing at a station is at that station\'s location, every vehicle parked or charging at a base is at that base\'s location. '
-          'PARTIAL: "planned route starts at the current position" over histories (needs connected routes; route_corr checks the two ends only) decided by correspondence + location monitor.',
+          'and every travelling vehicle\'s planned route is a connected walk from its current place to the place of the entity it was sent to, so an exhausted route means the vehicle is at that entity '
+          '(C07_routes_over_histories, C07_arrived; hypotheses: the router answers (a,b) with a walk from a to b - C13 / C07_haversine_router - and step length > 0; rests on C07_traverse_keeps_walk for every link table). '
+          'PARTIAL: for ServicingTrip the route\'s end is not tied to the request destination by the invariant (drop-off elsewhere is refused: per-transition theorem).',
    'Coq proof: enter-guard theorem + state invariant by induction over operation histories (macro frame theorem); correspondence; monitor')
 _c('C09', 'Proved: transition yields a new state iff exit AND enter succeed, otherwise the whole Sim record is kept; a refused instruction is as if absent from the batch; the instruction taking part for a '
           'vehicle is the last pushed, the driver having the final word (stack model). transition_previous_to_next is regenerated from the source each run.',
